@@ -263,7 +263,10 @@ class Sub:
     def replay(self, case):
         st = Stats(self.name, 0)
         st.begin(case)
-        self.run(case, st)
+        try:
+            self.run(case, st)
+        finally:
+            cleanup_scratch()
 
 
 class MachineSub(Sub):
@@ -361,7 +364,33 @@ def open_findings(prop_id):
     return {f["id"]: f for f in data.get("findings", []) if f["property"] == prop_id and f["status"] == "open"}
 
 
+_SCRATCH = []
+
+
+def scratch_dir():
+    """A per-process temporary directory (outside /repo and /verif), removed when the job ends."""
+    import tempfile
+
+    if not _SCRATCH:
+        _SCRATCH.append(tempfile.mkdtemp(prefix="pbv-scratch-"))
+    return _SCRATCH[0]
+
+
+def cleanup_scratch():
+    import shutil
+
+    while _SCRATCH:
+        shutil.rmtree(_SCRATCH.pop(), ignore_errors=True)
+
+
 def run_job(prop_id, sub, tier, piece, npieces, seed0):
+    try:
+        return _run_job(prop_id, sub, tier, piece, npieces, seed0)
+    finally:
+        cleanup_scratch()
+
+
+def _run_job(prop_id, sub, tier, piece, npieces, seed0):
     """Run one piece of one sub-check; returns a plain dict (picklable)."""
     import hypothesis.internal.conjecture.engine as eng
 
